@@ -31,11 +31,18 @@ def xpErrClass : XPErr → String
 def parseBindings (s : Str) : List (Option Str × Str) :=
   let parts := (String.ofList s).splitOn ";"
   -- later bindings of the same prefix replace earlier ones (`Context::add_ns`)
-  let bs := parts.filterMap fun b =>
+  -- `!p` / `!` takes the binding of prefix p / the default binding out again (`Context::remove_ns`): `none` as URI below
+  let bs : List (Option Str × Option Str) := parts.filterMap fun b =>
+    if b.startsWith "!" then
+      let p := (b.drop 1).toString
+      some ((if p.isEmpty then none else some p.toList), none)
+    else
     match b.splitOn "=" with
-    | p :: u :: rest => some ((if p.isEmpty then none else some p.toList), ("=".intercalate (u :: rest)).toList)
+    | p :: u :: rest => some ((if p.isEmpty then none else some p.toList), some ("=".intercalate (u :: rest)).toList)
     | _ => none
-  bs.foldl (fun acc (p, u) => (acc.filter (·.1 != p)) ++ [(p, u)]) []
+  bs.foldl (fun acc (p, u) => match u with
+    | some u => (acc.filter (·.1 != p)) ++ [(p, u)]
+    | none => acc.filter (·.1 != p)) []
 
 /-- quirk switches of the `query` op: w = entity references in content are white-space normalised,
     r = #REQUIRED attributes are materialised, z = string() of negative zero is "-0" -/
